@@ -28,9 +28,10 @@ def cases(draw, tier):
                       st.integers(4, 60 if tier == 'quick' else 400), st.integers(60, 200 if tier == 'quick' else 800)))
     fam = draw(st.sampled_from(['mono', 'mono', 'noisy', 'plateau', 'ones', 'steps', 'bursts', 'convex', 'narrow', 'grid']))
     steps = draw(st.lists(st.integers(1, draw(st.sampled_from([1, 3, 50]))), min_size=n - 1, max_size=n - 1))
-    x = [float(draw(st.integers(0, 20)))]
+    unit = draw(st.sampled_from([1, 1, 1, 1, 2 ** 26]))      # cache sizes in objects ... or in bytes (64 MiB steps)
+    x = [float(draw(st.integers(0, 20)) * unit)]
     for s in steps:
-        x.append(x[-1] + s)
+        x.append(x[-1] + s * unit)
     unit = st.floats(0, 1, allow_nan=False).map(lambda v: v if v >= 1e-6 else 0.0)
     if fam == 'mono':
         y = sorted(draw(st.lists(unit, min_size=n, max_size=n)), reverse=True)
@@ -140,7 +141,9 @@ def oracle(case, rec):
 
 def examples(tier):
     pts = [[float(i + 1), v] for i, v in enumerate([1, 0.9, 0.5, 0.45, 0.2, 0.19, 0.1, 0.1, 0.05, 0.05])]
-    return [{'family': 'repo', 'pts': pts, 'dx': 0.05, 'dy': 0.05, 'dz': 0.05}]
+    # ... and one very fine z-score step (a valid dz): ~1e5 rounds of the main loop
+    return [{'family': 'repo', 'pts': pts, 'dx': 0.05, 'dy': 0.05, 'dz': 0.05},
+            {'family': 'repo', 'pts': pts[:6], 'dx': 0.3, 'dy': 0.3, 'dz': 4e-5}]
 
 
 SUBS = [Sub('zmethod', oracle, strategy=cases, budget={'quick': 6400, 'thorough': 96000}, examples=examples, fuzz={'thorough': 20000})]
